@@ -462,6 +462,13 @@ func (e *Env) callOp(rec reflect.Value, op map[string]any) {
 		case bool:
 			in[i] = reflect.ValueOf(x)
 		case string:
+			if x == "new" {
+				// a freshly created value of the parameter's (pointer) type, as New<Struct>() gives
+				nv := reflect.New(pt.Elem())
+				call(nv, "Init")
+				in[i] = nv
+				continue
+			}
 			// typed literal: u:123 i:-4 f:hex s:hex
 			kind, body := x[:1], x[2:]
 			var pv any
